@@ -75,7 +75,9 @@ def _sub(l: str) -> str:
     return out
 
 
-POOL = ["", "a", "b\n", "xaya\n"]
+POOL = ["", "a", "b\n", "xaya\n", "bbc\n"]
+PATTERNS = [("a", "bb"), ("a|bb", "bb")]  # the second one is a normalising pattern: on 'bb' it matches and reproduces the text
+
 
 
 def _lines(sels: List[int]) -> List[str]:
@@ -83,26 +85,30 @@ def _lines(sels: List[int]) -> List[str]:
     `re.sub` runs natively: CrossHair's regex model mis-handles multi-match substitution on symbolic strings)."""
     out = []
     for i in sels:
-        if i % 4 == 0:
+        if i % 5 == 0:
             out.append(POOL[0])
-        elif i % 4 == 1:
+        elif i % 5 == 1:
             out.append(POOL[1])
-        elif i % 4 == 2:
+        elif i % 5 == 2:
             out.append(POOL[2])
-        else:
+        elif i % 5 == 3:
             out.append(POOL[3])
+        else:
+            out.append(POOL[4])
     return out
 
 
-def regex_plain(sels: List[int], spans: List[Tuple[int, int]]) -> bool:
-    """RegexTransformerPipeline._apply: lines the pattern does not match are byte-identical, every edited line gets
-    one change numbered 1-based, carrying exactly the findings whose range covers that line.
+def regex_plain(sels: List[int], spans: List[Tuple[int, int]], norm: bool) -> bool:
+    """RegexTransformerPipeline._apply: lines the substitution leaves as they are (no match, or - with the
+    normalising pattern - a match that reproduces the text) are byte-identical and get NO change entry, every edited
+    line gets one change numbered 1-based, carrying exactly the findings whose range covers that line.
     pre: len(sels) <= NLINES and len(spans) <= NSPANS and all(1 <= s <= e <= 4 for s, e in spans)
     post: _
     """
     lines = _lines(sels)
     results = _results(spans)
-    pipe = RegexTransformerPipeline(pattern="a", replacement="bb", change_description="d")
+    pat, rep = PATTERNS[1] if norm else PATTERNS[0]
+    pipe = RegexTransformerPipeline(pattern=pat, replacement=rep, change_description="d")
     changes, updated = pipe._apply(list(lines), _fc(results), results)
     if len(updated) != len(lines):
         return False
@@ -119,7 +125,7 @@ def regex_plain(sels: List[int], spans: List[Tuple[int, int]]) -> bool:
     return fin(got == exp_changes)
 
 
-def regex_sast(sels: List[int], spans: List[Tuple[int, int]]) -> bool:
+def regex_sast(sels: List[int], spans: List[Tuple[int, int]], norm: bool) -> bool:
     """SastRegexTransformerPipeline._apply: only lines that carry a finding are edited; each edit has one change
     with the findings of that line; a finding line the pattern cannot fix is reported unfixed; all other lines
     are byte-identical.
@@ -129,7 +135,8 @@ def regex_sast(sels: List[int], spans: List[Tuple[int, int]]) -> bool:
     lines = _lines(sels)
     results = _results(spans)
     fc = _fc(results)
-    pipe = SastRegexTransformerPipeline(pattern="a", replacement="bb", change_description="d")
+    pat, rep = PATTERNS[1] if norm else PATTERNS[0]
+    pipe = SastRegexTransformerPipeline(pattern=pat, replacement=rep, change_description="d")
     changes, updated = pipe._apply(list(lines), fc, results)
     if len(updated) != len(lines):
         return False
@@ -574,8 +581,10 @@ def planted_cdata_escape(c: str) -> bool:
 
 def warmup():
     Change(lineNumber=1, description="d", findings=[Finding(id="x", rule=Rule(id="r", name="r", url=None))])
-    regex_plain([1, 2, 3], [(1, 1)])
-    regex_sast([1, 2, 3], [(1, 2)])
+    regex_plain([1, 2, 3], [(1, 1)], False)
+    regex_plain([4, 2], [(1, 1)], True)
+    regex_sast([1, 2, 3], [(1, 2)], False)
+    regex_sast([4, 1], [(1, 2)], True)
     xml_characters("a<&")
     try:
         xml_cdata("a<")
@@ -604,7 +613,7 @@ SPEC = {
         "XMLTransformerPipeline.apply (transformer construction, writing) with a replayed event stream, re-read by the real expat parser",
     ],
     "bounds": {
-        "quick": "<= 2 (thorough 3) lines chosen from a pool of 4 (empty, one match, no match, two matches), <= 2 findings with symbolic line ranges in 1..4; XML character data / CDATA / comment / PI content of <= 3 symbolic characters (any Unicode); attribute values of <= 2 characters over the 9 classes escape()/quoteattr() distinguish, locator and finding positions unbounded ints",
+        "quick": "<= 2 (thorough 3) lines chosen from a pool of 5 (empty, one match, no match, two matches, a match the replacement reproduces), plain or normalising pattern, <= 2 findings with symbolic line ranges in 1..4; XML character data / CDATA / comment / PI content of <= 3 symbolic characters (any Unicode); attribute values of <= 2 characters over the 9 classes escape()/quoteattr() distinguish, locator and finding positions unbounded ints",
         "thorough": "3 lines, XML strings of <= 4 characters",
     },
     "assumptions": [
